@@ -110,6 +110,10 @@ CHECKS = {
          "A repository history is built through SQL behind the production engine (commits, second table, branch with working-set-only rows, tag, deleted branch, stash, in-progress conflicted merge, staged and unstaged rows; drawn per run); then CALL dolt_gc (default / --full / --archive-level 0, once or twice, session-aware safepoint controller) runs as one task of the seeded S1 scheduler, parked before BeginGC, every MarkAndSweepChunks, every SaveHashes, Finalize, AddChunksToStore, SwapChunksInStore, EndGC and PruneTableFiles, while 1-3 writer sessions (transactions opened before the collection and committed during or after it) run statements in between. Afterwards and again after a clean restart: the SQL fingerprint of everything the writers do not touch is unchanged; every row whose commit was acknowledged is present; no writer statement failed for a non-transactional reason; a walk from the store root over every reference reads every chunk with bytes that hash to its address.",
          "Writers run whole statements between scheduling points (a statement blocked by the collection lets the collector go on). Interactive rebase / revert / cherry-pick state and statistics refs are not part of the generated histories. The yield points sit in a wrapper around the ValueStore's chunk store installed through the overlay's white-box accessor; no dolt code is changed.",
          "deterministic simulation: seeded S1 scheduler over GC phases x writer statements, fingerprint + acknowledged-write + reference-walk oracles, clean restart", "DESIGN.md §6.3 C08", "dsim-sql"),
+ "C35": ("exploration",
+         "Two databases of one production SQL engine (the second a clone of the first) exchange commits through one remote: a file remote (file-manifest store) or an HTTP remote (the real remotesrv gRPC service + HTTP file handler + sealer behind the simulated network, the real remotestorage client). Part 1, seeded step sequences: commits on several branches of both sides (divergent histories, same-key edits, destinations that already hold part of the data), dolt_push (also --force), dolt_fetch, dolt_pull, dolt_clone, engine and remote-server restarts, table-file size drawn per run so that a transfer is one or many files; transfers are disturbed by EIO at a chosen file operation on the destination, a disk that stays dead, lost / duplicated / truncated network exchanges, and process death at structural file-operation positions inside the transfer (crash images of the destination under three persistence variants, re-opened by the real code). After every step a walk from the root of every store must read every chunk with bytes that hash to its address; the remote's branches must be exactly where the acknowledged pushes put them; a non-fast-forward push without --force must be refused; fetched / cloned tracking refs equal the remote's heads; a pulled branch contains the remote's head and its own old head. Part 2, seeded S1 schedules: 2-3 sessions commit and push main without --force concurrently, parked before the remote store's Root / Rebase / Commit / AddTableFilesToManifest (file remote) or before every unary RPC and upload (HTTP remote): every acknowledged push must be contained in the remote's final head.",
+         "Sampling of histories, fault placements and schedules. The puller's and the chunk fetcher's helper goroutines are not scheduled by the simulator: which file operation a disk fault hits and which crash images are taken can differ between executions of one seed, so a violating run may not replay; the check then tries the other violating runs and reports only one that reproduces (DESIGN §11). Shallow clones, tag pushes, remote branch deletion, git-backed and cloud remotes are not covered; the gRPC/HTTP transports are replaced by in-process delivery (protobuf codec kept).",
+         "deterministic simulation: seeded transfer histories with disk / network / crash faults + seeded S1 scheduler over concurrent pushers, reference-walk and ref-model oracles", "DESIGN.md §6.2 C35", "dsim-sql"),
  "C27": ("exploration",
          "2-3 sessions on main plus one on branch b1 behind the production SQL engine, one keyless table with a secondary index; seeded multi-row INSERT of duplicates, DELETE/UPDATE ... LIMIT n, COMMIT/ROLLBACK, edits on b1, CALL dolt_merge('b1'), clean restarts; a multiset reference model per session and branch predicts every GROUP BY over all columns, COUNT(*) and index lookup; transaction commits and branch merges must combine multiplicity changes row by row and must refuse/report when both sides changed the multiplicity of one row differently.",
          "Refusals for convergent changes (both sides made the same change) are dolt being conservative and are counted, not reported. dolt_merge runs under autocommit (conflicts => rolled back + error); the dolt_conflicts table contents are C43 (pure).",
